@@ -55,18 +55,6 @@ func VerifC01_tsv_headerless_implicit_roundtrip() {
 	c01WriteRead(c01Domain{format: "tsv", posNames: true, flags: []string{"--headerless-tsv-output", "--implicit-tsv-header"}})
 }
 
-// CSV with --quote-all (every byte representable but the folded CRLF pair)
-//verif:opts engine-only maxpaths=300000 unwind=300 tier=thorough
-func VerifC01_csv_quote_all_roundtrip() {
-	c01WriteRead(c01Domain{format: "csv", flags: []string{"--quote-all"}})
-}
-
-// CSV, headerless output read back with an implicit header
-//verif:opts engine-only maxpaths=300000 unwind=300 tier=thorough
-func VerifC01_csv_headerless_implicit_roundtrip() {
-	c01WriteRead(c01Domain{format: "csv", posNames: true, flags: []string{"--headerless-csv-output", "--implicit-csv-header"}})
-}
-
 // NIDX: positional names, values non-empty and free of whitespace (without --ifs the NIDX reader
 // splits on runs of spaces and tabs, option_parse.go "Special case for Miller 6 upgrade")
 //verif:opts engine-only maxpaths=300000 unwind=300
